@@ -599,3 +599,5 @@ func getIOSActionOfText(l string) string {
 	a, _, _ := strings.Cut(l, " ")
 	return a
 }
+
+func regexpMust(s string) *regexp.Regexp { return regexp.MustCompile(s) }
